@@ -1,4 +1,5 @@
 import GrcovModel.Lcov
+import GrcovModel.Lemmas.LcovWriter
 import GrcovModel.Drv.Merge
 namespace Grcov.Drv
 open Grcov
@@ -26,5 +27,15 @@ def handleUtf8Lossy : List String → String
     | none => "bad-op"
   | [] => ""
   | _ => "bad-op"
+
+/-- `lcov.print K<hexpath>=<cov> …` → hex of the report bytes `printLcov` writes -/
+def handleLcovPrint (entries : List String) : String :=
+  let es : Option (List (List Nat × Cov)) := entries.mapM fun e =>
+    match (e.drop 1).toString.splitOn "=" with
+    | [k, cov] => do pure ((← fromHex k), (← parseCov cov))
+    | _ => none
+  match es with
+  | some es => toHex (Lcov.printLcov es)
+  | none => "bad-op"
 
 end Grcov.Drv
